@@ -7,7 +7,7 @@ PUSHED when it pushed a frame itself.  Models must make all their `choose`/`bran
 import re
 import z3
 from .values import *
-from .types import parse_type
+from .rtypes import parse_type
 
 REGISTRY = {}
 PATTERNS = []
@@ -315,63 +315,6 @@ def m_windows(c):
     return IterObj([new_cell_ptr(SeqView(s, i, i + k)) for i in range(0, max(0, n - k + 1))], 0, 'windows')
 
 
-@model('core::slice::iter', 'Vec::iter', 'core::slice::iter_mut', 'VecDeque::iter')
-def m_slice_iter(c):
-    s = as_seq(c.st, c.args[0])
-    return IterObj(elem_ptrs(c.st, s), 0, 'slice')
-
-
-@pattern(r'^<&(mut )?(\[.*\]|Vec|std::vec::Vec|VecDeque) as IntoIterator>::into_iter$')
-def m_ref_into_iter(c):
-    s = as_seq(c.st, c.args[0])
-    return IterObj(elem_ptrs(c.st, s), 0, 'slice')
-
-
-@pattern(r'^<(Vec|std::vec::Vec|\[.*; .*\]) as IntoIterator>::into_iter$')
-def m_vec_into_iter(c):
-    s = as_seq(c.st, c.args[0])
-    return IterObj(list(s.items(c.st)), 0, 'vec')
-
-
-@pattern(r'^<.* as IntoIterator>::into_iter$')
-def m_iter_into_iter(c):
-    v = c.args[0]
-    if isinstance(v, IterObj):
-        return v
-    if isinstance(v, Struct) and v.ty == 'Range':
-        return v
-    raise Unsupported('into_iter on ' + type(v).__name__ + ' via ' + c.canon)
-
-
-@pattern(r'^<.* as Iterator>::next$')
-def m_iter_next(c):
-    it = deref(c.st, c.args[0])
-    if isinstance(it, IterObj):
-        if it.kind == 'lazy':
-            raise Unsupported('lazy adaptor next')
-        if it.pos >= len(it.items):
-            return none()
-        v = it.items[it.pos]
-        it.pos += 1
-        return some(v)
-    if isinstance(it, Struct) and it.ty == 'Range':
-        a, b = it.fields[0], it.fields[1]
-        lt = (a.v < b.v) if a.signed else z3.ULT(a.v, b.v)
-        if c.st.branch(lt, 'range next'):
-            it.fields[0] = Int(z3.simplify(a.v + 1), a.signed)
-            return some(a)
-        return none()
-    raise Unsupported('next on ' + type(it).__name__)
-
-
-@pattern(r'^<.* as ExactSizeIterator>::len$|^<.* as Iterator>::count$')
-def m_iter_len(c):
-    it = deref(c.st, c.args[0])
-    if isinstance(it, IterObj):
-        return usize(len(it.items) - it.pos)
-    raise Unsupported('len on ' + type(it).__name__)
-
-
 # ------------------------------------------------------------------ integers
 
 def _int_method(name):
@@ -470,7 +413,7 @@ def m_bytes(c):
 
 @pattern(r'^<(u8|u16|u32|u64|u128|usize|i8|i16|i32|i64|i128|isize) as From<(u8|u16|u32|u64|usize|i8|i16|i32|i64|bool)>>::from$')
 def m_int_from(c):
-    from .types import INT
+    from .rtypes import INT
     m = re.match(r'^<(\w+) as From<(\w+)>>', c.canon)
     w, sg = INT[m.group(1)]
     a = c.args[0]
@@ -484,7 +427,7 @@ def m_int_from(c):
 
 @pattern(r'^<(u8|u16|u32|u64|u128|usize|i8|i16|i32|i64|i128|isize) as TryFrom<(\w+)>>::try_from$')
 def m_int_try_from(c):
-    from .types import INT
+    from .rtypes import INT
     m = re.match(r'^<(\w+) as TryFrom<(\w+)>>', c.canon)
     w, sg = INT[m.group(1)]
     a = c.args[0]
@@ -555,7 +498,7 @@ def m_prim_clone(c):
 
 @pattern(r'^<(u8|u16|u32|u64|u128|usize|i8|i16|i32|i64|i128|isize) as Default>::default$')
 def m_int_default(c):
-    from .types import INT
+    from .rtypes import INT
     m = re.match(r'^<(\w+) as', c.canon)
     w, sg = INT[m.group(1)]
     return Int(z3.BitVecVal(0, w), sg)
